@@ -30,6 +30,9 @@ CHECKS = {
  "C14": ("runtime monitor: every fragment returned by checked get/get_many/get_by_schema/iterators must be UTF-8, one well-formed value, inside the input, and justified by a strict reference walk that validates everything traversed before it; every prefix and every single-byte substitution of generated documents; ASan",
          "Exploration: all prefixes and all 1-byte substitutions of 1.5k (quick) documents x their paths, 30k targeted mutations (garbage between tokens, inside skipped siblings, bad escapes, invalid UTF-8), hand-written traps.",
          "Trusted: harness strict walker. One-directional (a returned value must be justified; rejections are never judged). get_many with duplicate names is justified by 'span inside input and everything up to its end is a well-formed JSON prefix'."),
+ "C13": ("runtime monitor: DOM of the raw text as model for the full accessor transcript of LazyValue/OwnedLazyValue from 10 sources; verbatim re-serialisation; fragment-tree model for random mutation histories (pointer_mut/get_mut/replace/push/append_pair/take/clone) with earlier clones re-checked at the end; ASan",
+         "Exploration over generated values of every JSON type (incl. bare literals), padded with random blanks, and 30k random mutation histories of up to 12 steps.",
+         "Trusted: the DOM (itself under C03) as accessor model; harness fragment model (a parsed container re-serialises compactly with re-escaped keys, untouched children verbatim)."),
  "C02": ("differential runtime monitor: independent RFC 8259 recogniser as accept/reject oracle over enumerated token sequences and mutated documents; ASan build",
          "Exploration: every listed entry point x carrier is executed on all token sequences up to the bound and on seeded generated/mutated documents; an independent recogniser decides what must be accepted. Held on the cases observed, not a proof over all byte strings.",
          "Trusted: the harness recogniser (cross-checked against serde_json), rustc, ASan runtime. Depth is capped at 64 so the permitted nesting-limit rejection never explains a verdict."),
